@@ -3,6 +3,8 @@
 //! {"reproduced": bool, "detail": "..."}.
 #[path = "../../../symex/vx/src/layout.rs"]
 mod layout;
+#[path = "../../../symex/vx/src/scenarios.rs"]
+mod scenarios;
 
 use bls12_381::{G1Affine, G1Projective, G2Affine, G2Projective, Scalar};
 use ff::Field;
@@ -263,6 +265,12 @@ fn main() {
     let out = match cmd {
         "unbound-atom" => unbound_atom(&a),
         "forge-establish" => forge_establish(&a),
+        "selftest" => {
+            let r = scenarios::run_all(a["seed"].as_u64().unwrap_or(1));
+            let v: Vec<_> = r.iter().map(|(n, b)| json!([n, b])).collect();
+            println!("{}", serde_json::to_string(&v).unwrap());
+            return;
+        }
         "array-extra" => array_extra(&a),
         "vec-hint" => vec_hint(&a),
         "decode-balance" => decode_balance(&a),
